@@ -5,12 +5,12 @@ root = os.path.join(os.path.dirname(os.path.abspath(__file__)), '..', 'seeded')
 metas = [json.load(open(f)) for f in sorted(glob.glob(os.path.join(root, '*', 'meta.json')))]
 out = ["# Seeded changes: which check catches which change", "",
 "Each change was written by a fresh sub-agent that saw only the property text (round 1: `<Cxx>-1/-2`; round 2, after the checks had been",
-"strengthened on round 1: `<Cxx>-3/-4`; round 3, after round 2: `<Cxx>-5/-6`; round 4, up to three changes aimed at less travelled paths: `<Cxx>-7/-8/-9`; round 5, the same brief again after round 4: `<Cxx>-10/-11/-12`; round 6, twelve properties, up to two changes aimed at what earlier batches had not touched: `<Cxx>-13/-14`; round 7, the eight remaining properties, one change each under a 15-minute brief: `<Cxx>-13` of C01 C02 C07 C14 C15 C17 C18 C20); it compiles, passes the 303 baseline tests, and its demonstration fails with the change and passes",
+"strengthened on round 1: `<Cxx>-3/-4`; round 3, after round 2: `<Cxx>-5/-6`; round 4, up to three changes aimed at less travelled paths: `<Cxx>-7/-8/-9`; round 5, the same brief again after round 4: `<Cxx>-10/-11/-12`; round 6, twelve properties, up to two changes aimed at what earlier batches had not touched: `<Cxx>-13/-14`; round 7, the eight remaining properties, one change each under a 15-minute brief: `<Cxx>-13` of C01 C02 C07 C14 C15 C17 C18 C20; round 8, four properties, one change each under an 8-minute brief: `<Cxx>-15` of C04 C10 C12 C13); it compiles, passes the 303 baseline tests, and its demonstration fails with the change and passes",
 "without. Checks were run (quick tier) against a scratch worktree with the change applied. 'first run' = verdict of the property's own check as",
 "it stood when the change arrived; every miss led to a strengthening of the alphabet, fault model or engine, after which every change is",
 "detected by its own property's check on every run (`tools/seedmatrix.sh` re-verifies all of it from the stored artefacts).", "",
 "| change | what | needs | first run | detected by (now) | strengthening |", "|---|---|---|---|---|---|"]
-stat = {1: [0, 0], 2: [0, 0], 3: [0, 0], 4: [0, 0], 5: [0, 0], 6: [0, 0], 7: [0, 0]}
+stat = {1: [0, 0], 2: [0, 0], 3: [0, 0], 4: [0, 0], 5: [0, 0], 6: [0, 0], 7: [0, 0], 8: [0, 0]}
 cell = lambda t: str(t).replace('|', '/').replace('\n', ' ')
 for m in metas:
     r = m.get('round', 1)
@@ -18,7 +18,7 @@ for m in metas:
     stat[r][1] += 1 if m['detected_before_strengthening'] else 0
     out.append("| %s | %s | %s | %s | %s | %s |" % (m['id'], cell(m['what']), cell(m['needs_to_manifest']), 'DETECTED' if m['detected_before_strengthening'] else 'MISSED',
         ', '.join(m['detected_by']) + (' (superseded by fix 64e02eb: harmless on the repaired tree)' if m.get('superseded') else ''), m['strengthening'] or '-'))
-out += ["", "Round 1: %d changes, %d detected on the first run. Round 2: %d changes, %d detected on the first run. Round 3: %d changes, %d detected on the first run. Round 4: %d changes, %d detected on the first run. Round 5: %d changes, %d detected on the first run. Round 6: %d changes, %d detected on the first run. Round 7: %d changes, %d detected on the first run. Missed now: 0 of %d (C09-2 and C09-9 apply to the tree before fix 64e02eb, which made them harmless; C16-8 is caught by C10, not by C16; C10-14 by C15 and C16, not by C10; C07-8 and C07-12 by the sampling race pass)." % (
-    stat[1][0], stat[1][1], stat[2][0], stat[2][1], stat[3][0], stat[3][1], stat[4][0], stat[4][1], stat[5][0], stat[5][1], stat[6][0], stat[6][1], stat[7][0], stat[7][1], len(metas))]
+out += ["", "Round 1: %d changes, %d detected on the first run. Round 2: %d changes, %d detected on the first run. Round 3: %d changes, %d detected on the first run. Round 4: %d changes, %d detected on the first run. Round 5: %d changes, %d detected on the first run. Round 6: %d changes, %d detected on the first run. Round 7: %d changes, %d detected on the first run. Round 8: %d changes, %d detected on the first run. Missed now: 0 of %d (C09-2 and C09-9 apply to the tree before fix 64e02eb, which made them harmless; C16-8 is caught by C10, not by C16; C10-14 by C15 and C16, not by C10; C07-8 and C07-12 by the sampling race pass)." % (
+    stat[1][0], stat[1][1], stat[2][0], stat[2][1], stat[3][0], stat[3][1], stat[4][0], stat[4][1], stat[5][0], stat[5][1], stat[6][0], stat[6][1], stat[7][0], stat[7][1], stat[8][0], stat[8][1], len(metas))]
 open(os.path.join(root, 'MATRIX.md'), 'w').write('\n'.join(out) + '\n')
 print(out[-1])
